@@ -4,6 +4,7 @@ import json
 import os
 
 from vlib import core, cover_inst as ci, cover_coq as cq, cover_bbgen
+from vlib import cover_ccgen
 from vlib.core import Broken, Mismatch, Failing
 from oracles import cover_brute as brute
 
@@ -34,8 +35,10 @@ CORES3 = [126, 189, 219, 231]
 def prove(ctx):
     with ctx.coq_lock():
         cover_bbgen.ensure(ctx)
+        cover_ccgen.ensure(ctx)
         ctx.prove('Properties/C10.v', timeout=900)
     ctx.trusted.append(cover_bbgen.TRUSTED)
+    ctx.trusted.append(cover_ccgen.TRUSTED)
     ctx.trusted.append(
         'tie H: omega/symbolic/cover_enum.py is modelled by hand in '
         'L5Cover/CoverEnum.v (as repaired by fixes/F2.patch); on every run '
